@@ -53,8 +53,8 @@ def handleIB (op : String) (args : List String) : Option String :=
       match blockCbor b' with
       | .ok bs => pure s!"ok {showBlock b'} {toHex bs}"
       | .error _ => pure "ok-nocbor"
-    | .ok (.error _) => pure "err"
-    | .error => pure "err"
+    | .ok (.error _) => pure s!"err {showBlock block}"
+    | .error => pure s!"err {showBlock block}"
     | .panic => pure "panic"
   | "ib.obtain", [f] => do
     match obtain (← ofHex f) with
